@@ -232,6 +232,9 @@ class Runner:
                     torn.append(j)
             if torn:
                 res.fail("C06", "sample_row_intact", "fields_of_sampled_row_disagree", rows=torn[:4], tags=[np.asarray(t).tolist() for t in tags])
+                if k > 1 and "C12" in props:
+                    # per-environment buffers sampled jointly: a row that NO environment stored as such came back
+                    res.fail("C12", "per_environment_buffers_independent", "joint_sample_returns_a_row_no_environment_stored", counts=counts)
                 continue
             res.ok("C06", "sample_row_intact", b)
             ids = [int(round(float(x))) for x in base]
@@ -242,8 +245,12 @@ class Runner:
             if unstored:
                 cause = "unwritten_slot_sampled" if any(t % NODE == 0 or t < 0 for t in unstored) else "overwritten_or_foreign_row_sampled"
                 res.fail("C06", "sample_only_stored" if k == 1 else "joint_sample_respects_fill", cause, got=ids, stored=sorted(live), counts=counts)
+                if k > 1 and "C12" in props:
+                    res.fail("C12", "per_environment_buffers_independent", "joint_sample_returns_a_row_no_environment_stored", counts=counts)
             else:
                 res.ok("C06", "sample_only_stored", b)
+                if k > 1:
+                    res.ok("C12", "per_environment_buffers_independent", b)
                 if k > 1:
                     res.ok("C06", "joint_sample_respects_fill")
             if len(set(ids)) != len(ids):
@@ -396,6 +403,18 @@ class Runner:
                     tr.ev("shuffle_probe", same=same)
                     if same == 3:
                         res.fail("C09", "fresh_shuffle_per_epoch", "minibatch_membership_never_shuffled", N=N, B=B)
+                    else:
+                        res.ok("C09", "fresh_shuffle_per_epoch")
+                    # the same through the one-call API `batches(batch_size, key=...)`: its documented key must shuffle as well
+                    seq_tags = {frozenset(range(r * B + 1, (r + 1) * B + 1)) for r in range(N // B)}
+                    same_b = 0
+                    for j in range(3):
+                        out = self._batches[None](buf, jr.key(op["key"] + 104729 * (j + 1)))
+                        ids = np.asarray(self._rollout_tags(out)[0]).round().astype(int)
+                        if ids.shape == (N // B, B) and {frozenset(int(x) for x in row) for row in ids} == seq_tags:
+                            same_b += 1
+                    if same_b == 3:
+                        res.fail("C09", "fresh_shuffle_per_epoch", "batches_ignores_its_key", N=N, B=B)
                     else:
                         res.ok("C09", "fresh_shuffle_per_epoch")
             else:  # sample
